@@ -56,7 +56,7 @@ func c12Timeouts(r *verdict.Run) {
 			time.Sleep(5 * time.Millisecond)
 		}
 	}()
-	timeouts := []string{"0.05", "0.1", "0.25", "1", "1.5", "0.001", "0.5"}
+	timeouts := []string{"0.05", "0.1", "0.25", "1", "1.5", "0.001", "0.5", "0.0005", "0.0001", "0.000001", "1e-9"} // (anything above 0 is a finite timeout)
 	var wg sync.WaitGroup
 	for fi, f := range blkForms {
 		for ti, t := range timeouts {
